@@ -103,6 +103,31 @@ def r2_any_dependent_member_wraps(ctx):
                 )
 
 
+def r2b_dependent_at_any_depth(ctx):
+    repo = ctx.repo
+    fs = [f for f in repo.all_funcs() if f.name == "is_dependent" and f.parent is None and f.cls is None]
+    ctx.require(len(fs) == 1, "is_dependent not found")
+    f = fs[0]
+    ctx.touch(f)
+    p = f.params[0]
+    rec = False
+    for c in ast.walk(f.node):
+        if isinstance(c, ast.Call) and call_name(c) == "any" and c.args and isinstance(c.args[0], (ast.GeneratorExp, ast.ListComp)):
+            ge = c.args[0]
+            g = ge.generators[0]
+            over_args = isinstance(g.iter, ast.Call) and call_name(g.iter) in ("get_args", "typing.get_args") and dotted(g.iter.args[0]) == p
+            self_call = isinstance(ge.elt, ast.Call) and call_name(ge.elt) == f.name and dotted(ge.elt.args[0]) == dotted(g.target)
+            rec = rec or (over_args and self_call and not g.ifs)
+    direct = any(isinstance(c, ast.Call) and call_name(c) == "isinstance" and dotted(c.args[0]) == p for c in ast.walk(f.node))
+    ctx.ob(
+        f"{f.key}:recursive",
+        f.loc(),
+        "a type is value-dependent if it is a dependent type or any of its type arguments is, at any depth (the test recurses into the arguments)",
+        rec and direct,
+        "the value-dependence test no longer recurses through all type arguments: a dependent type nested two levels down (a union of intersections of conditions) is registered as a plain static type and its condition is never checked",
+    )
+
+
 class DepGen:
     """The three strategies of the dependent generator, read from its emission structure."""
 
@@ -390,11 +415,18 @@ def r4_table_needs_disjoint_keys(ctx):
             if any(a[0] == "le" and src(a[2]).startswith("len(") and isinstance(a[1], ast.Constant) for a in at) or "len(relevant) > 1" in src(st.test):
                 if any(isinstance(s, ast.Assign) and any(dotted(t) == kv for t in s.targets) and isinstance(s.value, ast.Constant) and s.value.value is None for s in st.body):
                     resets.append(st)
+    # ... and the test runs for every handler: it sits in the loop that computes each handler's dependent positions
+    per_handler = False
+    for r in resets:
+        names = {n.id for n in ast.walk(r.test) if isinstance(n, ast.Name)}
+        for lp in ast.walk(g.node):
+            if isinstance(lp, ast.For) and r in lp.body and any(isinstance(s, ast.Assign) and any(dotted(t) in names for t in s.targets) for s in lp.body):
+                per_handler = True
     ctx.ob(
         f"{g.key}:table-only-on-single-position",
         g.loc(resets[0]) if resets else g.loc(),
-        "a handler with more than one value-dependent position switches the table strategy off",
-        bool(resets),
+        "every handler with more than one value-dependent position switches the table strategy off (tested per handler)",
+        bool(resets) and per_handler,
         "the table strategy stays on for handlers with several dependent positions: only one position's value is checked",
     )
 
@@ -483,9 +515,14 @@ def r1(ctx):
     r6_bound_before_predicate(ctx)
 
 
+def r2(ctx):
+    r2_any_dependent_member_wraps(ctx)
+    r2b_dependent_at_any_depth(ctx)
+
+
 RULES = [
     ("C10.R1", "P1", r1, "bound before predicate"),
-    ("C10.R2", "P1", r2_any_dependent_member_wraps, "a rank with any dependent member is wrapped"),
+    ("C10.R2", "P1", r2, "a rank with any dependent member is wrapped"),
     ("C10.R3", "P1", r3_skeleton_laws, "skeleton laws of the three strategies"),
     ("C10.R4", "P1", r4_table_needs_disjoint_keys, "table path needs disjoint keys and one dependent position"),
     ("C10.R5", "P1", r5_union_members_bound_guarded, "a predicate inside a union is bound-guarded"),
